@@ -60,6 +60,17 @@ class CondGen(object):
             name = r.choice(sorted(self.counters))
             self.features.add('counter-operand')
             return '\\value{%s}' % name, self.counters[name]
+        if r.random() < 0.12:
+            # a number whose digits continue across a macro boundary: literal digits, then a macro that yields more digits
+            # (which may itself end in another such macro)
+            d1 = str(r.choice([1, 2, 5, 10, 12]))
+            if 'zqdga' not in self.plainmacros:
+                self.plainmacros['zqdga'] = str(r.choice([0, 3, 7, 25]))
+                self.plainmacros['zqdgb'] = str(r.choice([1, 4])) + '\\zqdga '
+            which = r.choice(['zqdga', 'zqdgb'])
+            tailtxt = self.plainmacros['zqdga'] if which == 'zqdga' else self.plainmacros['zqdgb'].split('\\')[0] + self.plainmacros['zqdga']
+            self.features.add('digits-continued-by-macro')
+            return d1 + '\\' + which, int(d1 + tailtxt)
         if self.regs and r.random() < 0.5:
             # a \newcount register (assigned at the outer level of the program, read anywhere)
             name = r.choice(sorted(self.regs))
